@@ -111,4 +111,119 @@ theorem div_exact (n s e : Int) (hs : s ≠ 0) (hn : n.natAbs < 2 ^ 53) (hsb : s
   obtain ⟨j, _, hj⟩ := roundDy_scaled n (sh + 1) hn
   exact ⟨j, by rw [hj]⟩
 
+/-- `shiftRNE a s` is a nearest multiple of `2^s` (as a quotient), ties broken to even -/
+theorem shiftRNE_nearest (a s : Nat) (hs : 0 < s) :
+    2 * (shiftRNE a s * 2 ^ s) ≤ 2 * a + 2 ^ s ∧ 2 * a ≤ 2 * (shiftRNE a s * 2 ^ s) + 2 ^ s
+    ∧ ((2 * (shiftRNE a s * 2 ^ s) = 2 * a + 2 ^ s ∨ 2 * a = 2 * (shiftRNE a s * 2 ^ s) + 2 ^ s) → shiftRNE a s % 2 = 0) := by
+  unfold shiftRNE
+  have hs0 : s ≠ 0 := by omega
+  simp only [hs0, if_false]
+  have hP : 2 ^ s = 2 * 2 ^ (s - 1) := by
+    rw [← Nat.pow_succ']; congr 1; omega
+  have hdm := Nat.div_add_mod a (2 ^ s)
+  have hr := Nat.mod_lt a (Nat.two_pow_pos s)
+  generalize a / 2 ^ s = q at *
+  generalize a % 2 ^ s = r at *
+  generalize 2 ^ (s - 1) = H at *
+  generalize hPP : 2 ^ s = P at *
+  have hqP : P * q = q * P := Nat.mul_comm _ _
+  split
+  · rename_i hc
+    rw [Nat.add_mul, Nat.one_mul]
+    refine ⟨by omega, by omega, ?_⟩
+    intro h
+    rcases hc with hc | ⟨hc1, hc2⟩ <;> omega
+  · rename_i hc
+    refine ⟨by omega, by omega, ?_⟩
+    intro h
+    have : ¬ (r > H) := fun h' => hc (Or.inl h')
+    have h2 : ¬ (r = H ∧ q % 2 = 1) := fun h' => hc (Or.inr h')
+    omega
+
+/-- the result of a rounding is a double: at most 53 significant bits (or exactly `2^53`), last place not below `2^-1074` -/
+theorem roundDy_is_double (m e : Int) :
+    (roundDy m e).m.natAbs ≤ 2 ^ 53 ∧ -1074 ≤ (roundDy m e).e := by
+  unfold roundDy
+  by_cases h : excessBits m.natAbs e ≤ 0
+  · rw [if_pos h]
+    unfold excessBits at h
+    have := (bitLen_le_iff m.natAbs 53).1 (by omega)
+    exact ⟨by simp only; omega, by simp only; omega⟩
+  · rw [if_neg h]
+    obtain ⟨t, ht⟩ : ∃ t : Nat, excessBits m.natAbs e = (t : Int) := ⟨_, (Int.toNat_of_nonneg (by omega)).symm⟩
+    have ht0 : 0 < t := by omega
+    rw [ht, Int.toNat_natCast]
+    have hbl : bitLen m.natAbs ≤ 53 + t := by unfold excessBits at ht; omega
+    have hlt : m.natAbs < 2 ^ (53 + t) := (bitLen_le_iff _ _).1 hbl
+    obtain ⟨h1, _, _⟩ := shiftRNE_nearest m.natAbs t ht0
+    constructor
+    · simp only [Int.natAbs_mul, Int.natAbs_natCast]
+      have hs : m.sign.natAbs ≤ 1 := by
+        rcases Int.lt_trichotomy m 0 with h | h | h
+        · rw [Int.sign_eq_neg_one_of_neg h]; decide
+        · subst h; decide
+        · rw [Int.sign_eq_one_of_pos h]; decide
+      have hq : shiftRNE m.natAbs t ≤ 2 ^ 53 := by
+        rw [Nat.pow_add] at hlt
+        have hp : 0 < 2 ^ t := Nat.two_pow_pos t
+        -- 2*(q'*P) ≤ 2a + P < 2*2^53*P + P  ⇒ q' ≤ 2^53
+        have : shiftRNE m.natAbs t * 2 ^ t < (2 ^ 53 + 1) * 2 ^ t := by
+          rw [Nat.add_mul, Nat.one_mul]; omega
+        exact Nat.le_of_lt_succ (Nat.lt_of_mul_lt_mul_right this)
+      calc m.sign.natAbs * shiftRNE m.natAbs t ≤ 1 * shiftRNE m.natAbs t := Nat.mul_le_mul_right _ hs
+        _ ≤ 2 ^ 53 := by omega
+    · unfold excessBits at ht; simp only; omega
+
+
+/-- rounding returns a value nearest to the exact one (distance at most half a unit of the last place kept), and on a tie
+    the even significand; `t` = number of bits dropped -/
+theorem roundDy_nearest (m e : Int) :
+    ∃ t : Nat, (roundDy m e).e = e + t
+      ∧ (2 * ((roundDy m e).m * 2 ^ t - m)).natAbs ≤ 2 ^ t
+      ∧ ((2 * ((roundDy m e).m * 2 ^ t - m)).natAbs = 2 ^ t → (roundDy m e).m % 2 = 0) := by
+  unfold roundDy
+  by_cases h : excessBits m.natAbs e ≤ 0
+  · rw [if_pos h]
+    refine ⟨0, by simp, by simp, ?_⟩
+    intro h'; simp at h'
+  · rw [if_neg h]
+    obtain ⟨t, ht⟩ : ∃ t : Nat, excessBits m.natAbs e = (t : Int) := ⟨_, (Int.toNat_of_nonneg (by omega)).symm⟩
+    have ht0 : 0 < t := by omega
+    rw [ht, Int.toNat_natCast]
+    obtain ⟨h1, h2, h3⟩ := shiftRNE_nearest m.natAbs t ht0
+    generalize shiftRNE m.natAbs t = q at *
+    refine ⟨t, rfl, ?_⟩
+    have hcast : ((2 ^ t : Nat) : Int) = (2 : Int) ^ t := by rw [Int.natCast_pow]; rfl
+    generalize hP : (2 : Nat) ^ t = P at *
+    have hPI : (2 : Int) ^ t = (P : Int) := hcast.symm
+    rw [hPI]
+    rcases Int.lt_trichotomy m 0 with hm | hm | hm
+    · rw [Int.sign_eq_neg_one_of_neg hm]
+      have hma : (m.natAbs : Int) = -m := by omega
+      have e1 : (-1 : Int) * (q : Int) * (P : Int) - m = -(((q * P : Nat) : Int) - (m.natAbs : Int)) := by
+        rw [hma, Int.natCast_mul]; simp only [Int.neg_mul, Int.one_mul]; omega
+      rw [e1]
+      constructor
+      · omega
+      · intro hh
+        have hq : q % 2 = 0 := h3 (by omega)
+        show (-1 * (q : Int)) % 2 = 0
+        have : (-1 * (q : Int)) = -(q : Int) := by omega
+        rw [this]; omega
+    · subst hm
+      simp only [Int.sign_zero, Int.zero_mul, Int.sub_zero, Int.mul_zero, Int.natAbs_zero]
+      exact ⟨Nat.zero_le _, fun _ => by simp⟩
+    · rw [Int.sign_eq_one_of_pos hm]
+      have hma : (m.natAbs : Int) = m := by omega
+      have e1 : (1 : Int) * (q : Int) * (P : Int) - m = ((q * P : Nat) : Int) - (m.natAbs : Int) := by
+        rw [hma, Int.natCast_mul]; simp only [Int.one_mul]
+      rw [e1]
+      constructor
+      · omega
+      · intro hh
+        have hq : q % 2 = 0 := h3 (by omega)
+        show (1 * (q : Int)) % 2 = 0
+        have : (1 * (q : Int)) = (q : Int) := by omega
+        rw [this]; omega
+
 end Dask.SoftFloat
